@@ -121,7 +121,12 @@ func glob2(c *Ctx) {
 			ok = true
 			why = "basic type " + u.String()
 		default:
-			why = fmt.Sprintf("type %s can carry shared mutable state", t)
+			if w := readOnlyTable(c, g); w == "" {
+				ok = true
+				why = fmt.Sprintf("%s table that the library only reads (indexing, lookup, range, len); never written (GLOB-1) and never handed out", t)
+			} else {
+				why = fmt.Sprintf("type %s can carry shared mutable state: %s", t, w)
+			}
 		}
 		if ok {
 			c.OK(key, g.Pos(), "%s", why)
@@ -154,6 +159,75 @@ var allowedImports = map[string]bool{
 	"strconv": true, "strings": true, "text/tabwriter": true,
 }
 var allowedOS = map[string]bool{"Getenv": true, "Exit": true, "Stdout": true, "Stderr": true}
+
+// readOnlyTable: every use of the composite-typed global g in the closure is a read of an element
+// or of its length. Returns "" if so, else the first offending use.
+func readOnlyTable(c *Ctx, g *ssa.Global) string {
+	why := ""
+	readOnlyValue := func(v ssa.Value, where string) {
+		refs := v.Referrers()
+		if refs == nil {
+			return
+		}
+		for _, u := range *refs {
+			switch x := u.(type) {
+			case *ssa.Lookup, *ssa.Index, *ssa.Range:
+			case *ssa.IndexAddr:
+				for _, uu := range *x.Referrers() {
+					if ld, ok := uu.(*ssa.UnOp); !ok || ld.Op != token.MUL {
+						why = "an element's address is taken in " + where
+					}
+				}
+			case *ssa.Call:
+				if b, ok := x.Call.Value.(*ssa.Builtin); !ok || (b.Name() != "len" && b.Name() != "cap") {
+					why = "passed to a call in " + where
+				}
+			case *ssa.Slice:
+				why = "re-sliced in " + where
+			case *ssa.DebugRef:
+			default:
+				why = fmt.Sprintf("used by %T in %s", x, where)
+			}
+		}
+	}
+	for _, fn := range c.ClosureFuncsDeep() {
+		isInit := fn.Name() == "init" && fn.Parent() == nil && fn.Pkg == g.Pkg
+		ir.Instrs(fn, func(in ssa.Instruction) {
+			for _, op := range in.Operands(nil) {
+				if *op != ssa.Value(g) {
+					continue
+				}
+				switch x := in.(type) {
+				case *ssa.UnOp:
+					if x.Op == token.MUL {
+						readOnlyValue(x, Q(fn))
+						continue
+					}
+				case *ssa.IndexAddr:
+					// &g[i] on an array global
+					for _, uu := range *x.Referrers() {
+						if ld, ok := uu.(*ssa.UnOp); ok && ld.Op == token.MUL {
+							continue
+						}
+						if st, ok := uu.(*ssa.Store); ok && isInit && st.Addr == ssa.Value(x) {
+							continue
+						}
+						why = "an element is written or its address escapes in " + Q(fn)
+					}
+					continue
+				case *ssa.Store:
+					if isInit && x.Addr == ssa.Value(g) {
+						continue
+					}
+				}
+				if !isInit {
+					why = fmt.Sprintf("used by %T in %s", in, Q(fn))
+				}
+			}
+		})
+	}
+	return why
+}
 
 func glob3(c *Ctx) {
 	for _, pk := range c.P.Closure {
